@@ -4,6 +4,7 @@ import z3
 from .symex import State, Sym, Obj, VecV, Ref, FutureV, UNIT, Unsupported, fresh_name
 from . import pearl as P
 from . import summaries as S
+from . import iters as IT
 from .pearl import BV64
 from .ob_blob import _check_paths, idx
 
@@ -664,3 +665,91 @@ def init_new_ids(crate):
         return True
     _check_paths(ex, res, outs, per_path)
     return P.finish(ex, res, ["quarantine directory not empty", "no quarantined blobs"])
+
+
+def records_count_rows(crate, B=2):
+    """C15: Safe::records_count_detailed lists one row per closed blob, in container order, as (that blob's id, that blob's
+    record count), followed - if there is an active blob - by (the active blob's id, its count); Safe::records_count is
+    the sum of the counts of exactly these rows.  (Guards fix 5af223e: the active row was labelled with the number of
+    closed blobs.)"""
+    res = P.ObResult("records_count_rows[B<=%d]" % B)
+    fd = crate.method("Safe", "records_count_detailed")
+    fs = crate.method("Safe", "records_count")
+    res.functions = ["Safe::records_count_detailed (async body)", "Safe::records_count (async body) + fold closure"]
+    res.bounds = "0..%d closed blobs (one run per count), active blob present or not, arbitrary ids and counts (< 2^40)" % B
+    tq = ts = 0
+    for n in range(B + 1):
+        for fn in (fd, fs):
+            ex = P.mk_executor(crate, cap=B + 2, loop_bound=B + 3, inline=[r"^Safe::records_count_detailed$"] if fn is fs else [])
+            st = State()
+            ids = [z3.BitVec("blob_%d_id" % i, 64) for i in range(n + 1)]
+            cnt = [z3.BitVec("blob_%d_count" % i, 64) for i in range(n + 1)]
+            for c in cnt:
+                st.pc.append(z3.ULT(c, BV64(1 << 40)))
+            cells = []
+            for i in range(n + 1):
+                b = Obj("blob::core::Blob<K>"); b.fields[("ghost", "n")] = Sym(BV64(i), "u64")
+                cells.append(st.new_cell(b))
+            safe = Obj("storage::core::Safe<K>")
+            has_active = z3.Bool("has_active")
+            ab = Obj("std::option::Option<Box<async_lock::RwLock<blob::core::Blob<K>>>>")
+            ab.discr = Sym(z3.If(has_active, BV64(1), BV64(0)), "isize")
+            lock = Obj("async_lock::RwLock<blob::core::Blob<K>>")
+            lock.fields[(None, 7000)] = st.mem[cells[n]]
+            ab.fields[("Some", 0)] = Ref(st.new_cell(lock), (), False, "Box<async_lock::RwLock<blob::core::Blob<K>>>")
+            safe.fields[(None, crate.field_index("Safe", "active_blob"))] = ab
+            sc = st.new_cell(safe)
+
+            def call_hook(ex_, st_, cname, args, dty, _n=n, _cells=cells):
+                if cname == "HierarchicalFilters::iter":
+                    slots = [(z3.BoolVal(True), Ref(c, (), False, "&blob::core::Blob<K>")) for c in _cells[:_n]]
+                    return [(IT.IterV(slots, "&Blob<K>", True, BV64(_n)), None)]
+                if cname in ("Blob::records_count", "Blob::id"):
+                    b = S.deref_val(ex_, st_, args[0])
+                    g = b.fields.get(("ghost", "n")) if isinstance(b, Obj) else None
+                    if g is None:
+                        raise Unsupported("blob without identity")
+                    i = z3.simplify(g.t).as_long()
+                    return [(Sym(cnt[i] if cname.endswith("records_count") else ids[i], "usize"), None)]
+                return None
+            ex.call_hook = call_hook
+            outs = P.drive_async(ex, st, fn, [Ref(sc, (), False, "&storage::core::Safe<K>")])
+            res.paths += len(outs)
+            for o in outs:
+                if o.status in ("infeasible", "unwind"):
+                    continue
+                if o.status != "returned":
+                    if not P.prove(ex, res, o, z3.BoolVal(False), "no panic (%s)" % o.note):
+                        return P.finish(ex, res, [])
+                    continue
+                ready, v = P.poll_payload(ex, o, o.result)
+                if fn is fd:
+                    if isinstance(v, Ref):
+                        v = S.deref_val(ex, o, v)
+                    if not isinstance(v, VecV):
+                        res.status = "inconclusive"; res.detail = "result vector not modelled"; return P.finish(ex, res, [])
+                    if not P.prove(ex, res, o, v.len.t == BV64(n) + z3.If(has_active, BV64(1), BV64(0)), "one row per closed blob (+1 for the active blob)"):
+                        return P.finish(ex, res, [])
+                    for i in range(n + 1):
+                        e = v.elems[i]
+                        if e is None:
+                            continue
+                        cond = z3.BoolVal(True) if i < n else has_active
+                        if not P.prove(ex, res, o, z3.Implies(cond, z3.And(e.fields[(None, 0)].t == ids[i], e.fields[(None, 1)].t == cnt[i])),
+                                       "row %d = (id, count) of %s" % (i, "closed blob %d" % i if i < n else "the active blob")):
+                            return P.finish(ex, res, [])
+                    P.cover(ex, res, o, has_active, "rows with an active blob, %d closed" % n)
+                    P.cover(ex, res, o, z3.Not(has_active), "rows without an active blob, %d closed" % n)
+                else:
+                    tot = BV64(0)
+                    for i in range(n):
+                        tot = tot + cnt[i]
+                    tot = tot + z3.If(has_active, cnt[n], BV64(0))
+                    if not P.prove(ex, res, o, v.t == tot, "records_count = sum of the rows' counts"):
+                        return P.finish(ex, res, [])
+                    P.cover(ex, res, o, has_active, "sum with an active blob, %d closed" % n)
+            tq += ex.queries; ts += ex.solver_s
+    need = ["rows with an active blob, %d closed" % B, "rows without an active blob, 0 closed", "sum with an active blob, %d closed" % B]
+    r = P.finish(ex, res, need)
+    r.queries, r.solver_s = tq, ts
+    return r
